@@ -15,6 +15,7 @@ import Pymc.Model.Pooled
 import Pymc.Model.PooledCall
 import Pymc.Model.HashCall
 import Pymc.Model.HashCallMany
+import Pymc.Model.HashBroadcast
 import Pymc.Model.HashPooledCall
 import Pymc.Model.Serde
 import Pymc.Model.Aws
@@ -590,10 +591,18 @@ def handlePooledCall (ws : List String) : Option String := do
 * a `delete_many` `<call>` is `op=hdelete_many t=<now> nr=<n|0|1> keys=<rk>~<key>|… (or `-`) [k<j>.cf=x<code>]
   [k<j>.sf=x<code>] k<j>.ev=… …`: `k<j>.` prefixes the script of the connection contacted for key number `j` (from 0) —
   `delete_many` is a loop of single-key `delete`s, the same server may be contacted several times; `srv=` / `client=` /
-  `cons=` list one entry per `_run_cmd` that reached `_safely_run_func`.
+  `cons=` list one entry per `_run_cmd` that reached `_safely_run_func`;
+* a broadcast `<call>` (`Pymc/Model/HashBroadcast.lean`) is `op=hflush_all t=<now> d=<delay: i:<int>|x> nr=<n|0|1>
+  [s<i>.cf=x<code>] [s<i>.sf=x<code>] s<i>.ev=… …`, `op=hquit t=<now> [s<i>.cf=…] [s<i>.sf=…] s<i>.ev=… …` or
+  `op=hclose t=<now>`: per server `i` the script of its connection during the call (`close` has none); the result token
+  is `None`, `exc:<class>` for an exception of an inner client that escaped, `exc:BookkeepingValueError` /
+  `exc:BookkeepingKeyError` for an exception of the failover bookkeeping itself (`remove_node` / `dict.pop`); `srv=` lists
+  the servers handed to `_safely_run_func`, in order, `client=` per such server the client object on which the function
+  was called (`-`: not called).
 
 Examples:
 `hashcall cfg=0000: fo=0,1,5 n=2 t0=0 rk=0,1 t=0 op=get k=b:6b cf=x61 | rk=0,1 t=1 op=get k=b:6b ev=d:454e440d0a`
+`hashcall cfg=0001: fo=0,1,5 n=2 t0=0 rk=0,1 t=0 op=get k=b:6b cf=x61 | op=hflush_all t=1 d=i:0 nr=0 s0.cf=x61 s1.ev=d:4f4b0d0a | op=hquit t=2 | op=hclose t=3`
 `hashcall cfg=0000: fo=1,1,5 n=2 t0=0 op=hget_many gets=0 t=0 keys=0,1~b:6b|1,0~b:7a s0.ev=d:454e440d0a s1.cf=x61`
 `hashcall cfg=0001: fo=1,1,5 n=2 t0=0 op=hset_many t=0 items=0,1~b:6b~b:76|1,0~b:7a~b:77 e=i:0 nr=0 fl=n s0.cf=x61 s1.ev=d:53544f5245440d0a`
 `hashcall cfg=0000: fo=1,1,5 n=2 t0=0 op=hdelete_many t=0 nr=0 keys=0,1~b:6b|0,1~b:7a k0.ev=d:44454c455445440d0a k1.ev=d:4e4f545f464f554e440d0a`
@@ -627,7 +636,7 @@ def handleHashCall (ws : List String) : Option String := do
         let pre := s!"s{i}."
         (parseScript ((seg.filter (·.startsWith pre)).map fun w => (w.drop pre.length).toString)).map fun sc => (i, sc)
       let lookup : Nat → Exchange.Script := fun s => ((scripts.find? (·.1 = s)).map (·.2)).getD {}
-      pure (({ op := .getMany gets keys lookup, now := now } : HashCall.MCall (List Nat)), HashCall.defaultRes .version)
+      pure ((.keyed { op := .getMany gets keys lookup, now := now } : HashCall.BCall (List Nat)), HashCall.defaultRes .version)
     else if (arg seg "op") = some "hset_many" then
       let istr ← arg seg "items"
       let items ← if istr = "-" then some [] else (istr.splitOn "|").mapM fun it =>
@@ -642,7 +651,7 @@ def handleHashCall (ws : List String) : Option String := do
         let pre := s!"s{i}."
         (parseScript ((seg.filter (·.startsWith pre)).map fun w => (w.drop pre.length).toString)).map fun sc => (i, sc)
       let lookup : Nat → Exchange.Script := fun s => ((scripts.find? (·.1 = s)).map (·.2)).getD {}
-      pure (({ op := .setMany items e nr flags (fun s _ => lookup s), now := now } : HashCall.MCall (List Nat)),
+      pure ((.keyed { op := .setMany items e nr flags (fun s _ => lookup s), now := now } : HashCall.BCall (List Nat)),
         HashCall.defaultRes .version)
     else if (arg seg "op") = some "hdelete_many" then
       let kstr ← arg seg "keys"
@@ -654,32 +663,54 @@ def handleHashCall (ws : List String) : Option String := do
       let keys ← (keys.zipIdx).mapM fun ((r, k), j) =>
         let pre := s!"k{j}."
         (parseScript ((seg.filter (·.startsWith pre)).map fun w => (w.drop pre.length).toString)).map fun sc => (r, k, sc)
-      pure (({ op := .deleteMany keys nr, now := now } : HashCall.MCall (List Nat)), HashCall.defaultRes .version)
+      pure ((.keyed { op := .deleteMany keys nr, now := now } : HashCall.BCall (List Nat)), HashCall.defaultRes .version)
+    else if (arg seg "op") = some "hflush_all" ∨ (arg seg "op") = some "hquit" ∨ (arg seg "op") = some "hclose" then
+      let bop : HashCall.BOp ←
+        if (arg seg "op") = some "hflush_all" then
+          (do pure (HashCall.BOp.flushAll (← parseIntArg (← arg seg "d")) (← parseOptBool (← arg seg "nr"))))
+        else if (arg seg "op") = some "hquit" then some HashCall.BOp.quit
+        else some HashCall.BOp.close
+      let scripts ← (List.range n).mapM fun i =>
+        let pre := s!"s{i}."
+        (parseScript ((seg.filter (·.startsWith pre)).map fun w => (w.drop pre.length).toString)).map fun sc => (i, sc)
+      let lookup : Nat → Exchange.Script := fun s => ((scripts.find? (·.1 = s)).map (·.2)).getD {}
+      pure ((.broadcast bop lookup now : HashCall.BCall (List Nat)), HashCall.defaultRes .version)
     else
       let c ← parseCall seg
       let sc ← parseScript seg
       let rk ← natList (← arg seg "rk")
-      pure (({ op := .cmd rk c sc, now := now } : HashCall.MCall (List Nat)), HashCall.defaultRes c)
+      pure ((.keyed { op := .cmd rk c sc, now := now } : HashCall.BCall (List Nat)), HashCall.defaultRes c)
   let showO := fun (o : Option Nat) => match o with | some i => toString i | none => "-"
-  let rec go (st : HashCall.St) (k : Nat) (cs : List (HashCall.MCall (List Nat) × Client.Res)) (acc : List String) : List String :=
+  let rec go (st : HashCall.St) (k : Nat) (cs : List (HashCall.BCall (List Nat) × Client.Res)) (acc : List String) : List String :=
     match cs with
     | [] => acc.reverse
-    | (mc, dv) :: rest =>
-      let (st1, ob) := HashCall.callM cfg fcfg Failover.prefRoute st k mc
-      let res := match ob.res with
-        | .value r => showRes r
-        | .default => showRes dv
-        | .raised _ e => "exc:" ++ showExc e
-        | .allDown => "exc:MemcacheError"
-        | .illegalKey => "exc:IllegalInput"
-        | .internalError => "exc:Internal"
+    | (bc, dv) :: rest =>
+      let (st1, xob) := HashCall.callB cfg fcfg Failover.prefRoute st k bc
       let plus := fun (l : List String) => if l = [] then "-" else "+".intercalate l
-      let cons := plus (ob.steps.map fun stp =>
+      let cons := plus (xob.steps.map fun stp =>
         if stp.consumed = [] then "-" else ",".intercalate (stp.consumed.map fun (te : Framing.TEv) => toString te.1))
       let clients := ",".intercalate (st1.clients.map fun (s, cl) =>
         let unread := if cl.sockOpen then (Readers.joinData (cl.pipe.map fun (te : Framing.TEv) => te.2)).length else 0
         s!"{s}:{cl.id}:{if cl.sockOpen then 1 else 0}:{unread}")
-      let line := s!"res={res} srv={plus (ob.batches.map fun b => toString b.server)} client={plus (ob.batches.map fun b => showO b.client)} {Failover.showState st1.fo} clients=[{clients}] cons={cons}"
+      let (res, srv, client) := match xob with
+        | .keyed ob =>
+          (match ob.res with
+            | .value r => showRes r
+            | .default => showRes dv
+            | .raised _ e => "exc:" ++ showExc e
+            | .allDown => "exc:MemcacheError"
+            | .illegalKey => "exc:IllegalInput"
+            | .internalError => "exc:Internal",
+           plus (ob.batches.map fun (b : HashCall.BatchObs) => toString b.server), plus (ob.batches.map fun (b : HashCall.BatchObs) => showO b.client))
+        | .broadcast ob =>
+          (match ob.res with
+            | .done => "None"
+            | .raised _ e => "exc:" ++ showExc e
+            | .bookkeeping _ .valueError => "exc:BookkeepingValueError"
+            | .bookkeeping _ .keyError => "exc:BookkeepingKeyError",
+           plus (ob.visits.map fun (v : HashCall.BObs) => toString v.server),
+           plus (ob.visits.map fun (v : HashCall.BObs) => if v.invoked then toString v.client else "-"))
+      let line := s!"res={res} srv={srv} client={client} {Failover.showState st1.fo} clients=[{clients}] cons={cons}"
       go st1 (k + 1) rest (line :: acc)
   pure ("ok " ++ " | ".intercalate (go (HashCall.init (List.range n) t0) 0 calls []))
 
